@@ -87,7 +87,7 @@ fn gen(g: &mut G, thorough: bool) -> Plan {
         _ => Family::UploadStall,
     };
     let mut body = bodyx::gen_plan(g, if thorough { 20_000 } else { 6_000 });
-    body.faults = ConnFaults { window: 64 * 1024, coalesce: g.chance(1, 4), ..Default::default() };
+    body.faults = ConnFaults { window: 64 * 1024, coalesce: g.chance(1, 4), timeout_is_timed_out: g.chance(1, 3), ..Default::default() };
     body.host_is_domain = g.chance(1, 2);
     if !matches!(body.read_mode, bodyx::ReadMode::Sizes(..)) {
         let (v, n) = gen::read_sizes(g);
@@ -583,7 +583,7 @@ fn oracle(p: &Plan, o: &Obs, h: &History, seen: &Seen, g: &mut G) -> Verdict {
         if c.t_out - c.t_in > r_ns {
             // the call saw at least R of time; find silent stretch: handled by transport check above; here the API level
             let wb = h.conns.iter().flat_map(|cn| cn.events.iter()).any(|e| {
-                matches!(e, ConnEv::Read { t_in, t_out, res: Err(std::io::ErrorKind::WouldBlock), .. } if *t_in >= c.t_in && *t_out < c.t_out)
+                matches!(e, ConnEv::Read { t_in, t_out, res: Err(std::io::ErrorKind::WouldBlock | std::io::ErrorKind::TimedOut), .. } if *t_in >= c.t_in && *t_out < c.t_out)
             });
             if wb {
                 return violation(
